@@ -52,7 +52,7 @@ def shatter( address, count, limit=None ):
     given range.  If no limit, we'll deduce some appropriate limits for the
     deduced register type, appropriate for either multi-register reads or
     writes. """
-    if not limit:
+    if not limit or limit < 0: # no usable limit given
         if (        1 <= address <= 9999
             or  10001 <= address <= 19999
             or 100001 <= address <= 165536 ):
